@@ -133,7 +133,8 @@ func genNodeRef(t *rapid.T, n int, label string) int {
 }
 
 func genAny(t *rapid.T, n, pools int, selfNode int, label string) AnyDesc {
-	kinds := []string{"nil", "nil", "int", "string"}
+	// typed nils: an interface that holds a nil map / slice / pointer is not a nil interface
+	kinds := []string{"nil", "nil", "int", "string", "nilmap", "nilslice", "nilptr"}
 	if n > 0 {
 		kinds = append(kinds, "node", "node", "nodeslice", "nodearray", "nodeval", "attrs", "islice", "selfslice")
 		if pools > 0 {
@@ -147,8 +148,13 @@ func genAny(t *rapid.T, n, pools int, selfNode int, label string) AnyDesc {
 		a.Node = rapid.IntRange(0, n-1).Draw(t, label+"_node")
 	case "nodeslice", "islice":
 		m := rapid.IntRange(0, 3).Draw(t, label+"_len")
+		lo := 0
+		if k == "islice" {
+			lo = -1 // no node: a nil interface or a typed nil element
+			a.Num = rapid.IntRange(0, 2).Draw(t, label+"_nilkind")
+		}
 		for i := 0; i < m; i++ {
-			a.Nodes = append(a.Nodes, rapid.IntRange(0, n-1).Draw(t, label+"_el"))
+			a.Nodes = append(a.Nodes, rapid.IntRange(lo, n-1).Draw(t, label+"_el"))
 		}
 	case "nodemap":
 		a.Pool = rapid.IntRange(0, pools-1).Draw(t, label+"_pool")
@@ -260,6 +266,13 @@ func genRoot(t *rapid.T, g GraphDesc, label string, allowAny bool) RootDesc {
 	}
 	if allowAny {
 		r.Any = genAny(t, n, len(g.NodeMaps), -1, label+"_any")
+		switch r.Any.Kind {
+		case "nilmap", "nilslice", "nilptr":
+			// at the ROOT a typed nil in an interface-typed config field reads as
+			// "this layer does not set the field" (nil means unset); whether it is
+			// kept is not promised.  Typed nils stay inside the node graph.
+			r.Any = AnyDesc{Kind: "nil"}
+		}
 	}
 	return r
 }
@@ -317,11 +330,19 @@ func (gi *graphInst) any(a AnyDesc) interface{} {
 		return s
 	case "islice":
 		s := make([]interface{}, 0, len(a.Nodes))
-		for _, i := range a.Nodes {
+		for k, i := range a.Nodes {
 			if n := gi.node(i); n != nil {
 				s = append(s, n)
 			} else {
-				s = append(s, nil)
+				// no node: alternate between a nil interface and typed nils
+				switch (k + a.Num) % 3 {
+				case 0:
+					s = append(s, nil)
+				case 1:
+					s = append(s, map[string]int(nil))
+				default:
+					s = append(s, []int(nil))
+				}
 			}
 		}
 		return s
@@ -337,6 +358,12 @@ func (gi *graphInst) any(a AnyDesc) interface{} {
 		if n := gi.node(a.Node); n != nil && n.Attrs != nil {
 			return n.Attrs
 		}
+	case "nilmap":
+		return map[string]*GNode(nil)
+	case "nilslice":
+		return []*GNode(nil)
+	case "nilptr":
+		return (*GNode)(nil)
 	case "int":
 		return a.Num
 	case "string":
@@ -862,7 +889,7 @@ func (l *lazySource) Value(_ context.Context, t *dials.Type) (reflect.Value, err
 func TestC03Graphs(t *testing.T) {
 	vrt.Check(t, vrt.Prop[C03Case]{
 		ID: "C03", Name: "graphs",
-		Rule: "object graphs of 0..8 nodes over the fixed family GNode/GLeaf/GRoot with arbitrary edges through struct-field pointers (one of them an exported field tagged dials:\"-\", which stacking skips but the copy must still reproduce), slices, arrays, maps, maps whose values are slices / maps shared with other fields, shared maps / *int, and interface payloads (*GNode, GNode by value, map[string]*GNode, []*GNode, [1]*GNode, []interface{}, a node's own Attrs map); " +
+		Rule: "object graphs of 0..8 nodes over the fixed family GNode/GLeaf/GRoot with arbitrary edges through struct-field pointers (one of them an exported field tagged dials:\"-\", which stacking skips but the copy must still reproduce), slices, arrays, maps, maps whose values are slices / maps shared with other fields, shared maps / *int, and interface payloads (typed nil map / slice / pointer, *GNode, GNode by value, map[string]*GNode, []*GNode, [1]*GNode, []interface{}, a node's own Attrs map); " +
 			"copied directly by the deep copier (root *GNode or *GRoot), by Config with the graph in defaults and in a source value, and by a watcher re-stack; oracle: terminates, reflect.DeepEqual, and the in->out map of pointer/map references in fields, elements and map values is a function with a fresh range; " +
 			"non-trivial = the graph has a cycle or a reference with in-degree >= 2; distinct = distinct case JSON",
 		Assumptions: []string{
